@@ -27,13 +27,16 @@ ENCODED = ["twisted.words.protocols.irc:IRCClient._sendMessage", "twisted.words.
            "twisted.words.protocols.irc:split", "twisted.words.protocols.irc:IRCClient._safeMaximumLineLength",
            "twisted.words.protocols.irc:lowQuote", "twisted.words.protocols.irc:lowDequote",
            "twisted.words.protocols.irc:ctcpQuote", "twisted.words.protocols.irc:ctcpDequote"]
-BOUNDS = {"quick": {"m": 4, "q": 4, "w": 4}, "thorough": {"m": 5, "q": 5, "w": 5}}
+BOUNDS = {"quick": {"m": 3, "mr": 3, "mw": 2, "q": 4, "w": 3}, "thorough": {"m": 4, "mr": 5, "mw": 4, "q": 5, "w": 5}}
 B = {}
-BOUNDS_TEXT = ("msg/notice: every message of <= m characters (m=4 quick, 6 thorough), each character any of: ASCII "
-               "whitespace (SP TAB LF VT FF CR), printable ASCII except '-', any 2-octet character U+00A1..U+07FF, "
-               "any 3-octet character U+4E00..U+9FFF, any 4-octet character U+1F300..U+1FAFF; octet budget "
-               "(limit - framing) from the widest character of the message up to w.  Quoting: every string of <= q "
-               "characters over all of Unicode")
+BOUNDS_TEXT = ("character classes: TAB | LF | CR | SP,VT,FF | printable ASCII except '-' | any 2-octet character "
+               "U+00A1..U+07FF | any 3-octet character U+4E00..U+9FFF | any 4-octet character U+1F300..U+1FAFF.  "
+               "send: msg() with every message of <= m characters (3 quick, 4 thorough) over the first six classes "
+               "(thorough also 5 characters over SP/VT/FF, ASCII, 2-octet); every octet budget (limit - framing) "
+               "from the widest character of the message up to w (3 quick, 5 thorough).  send_wide: msg() with <= mw "
+               "characters (2 quick, 4 thorough) over SP/VT/FF and the 1..4-octet classes, budgets 4..w+2.  "
+               "send_notice / send_default: notice() and msg(length=None) with <= 2 characters over all classes.  "
+               "Quoting: every string of <= q characters (4 quick, 5 thorough) over all of Unicode")
 OUTSIDE = ["'-' in the message (textwrap's hyphen/em-dash break rules are not ported, so they are not explored)",
            "non-ASCII Unicode whitespace (U+0085, U+00A0, U+1680, U+2000.., U+3000, U+001C..U+001F): textwrap "
            "splits on ASCII whitespace only but strips with str.strip(); such characters can be dropped by "
@@ -201,23 +204,25 @@ def _send(message, budget, notice, maxlen):
 
 def send(message: str, budget: int) -> bool:
     """
-    pre: len(message) <= B['m'] and all(1 <= _cls(c) <= 6 for c in message)
+    pre: len(message) <= max(B['m'], B['mr']) and all(1 <= _cls(c) <= 6 for c in message)
+    pre: len(message) <= B['m'] or all(_cls(c) >= 4 for c in message)
     pre: 1 <= budget <= B['w'] and all(_u8(c) <= budget for c in message)
     post: _
     """
-    # msg(): whitespace of every kind, ASCII and two-octet characters; every budget from the widest
+    # msg(): whitespace of every kind, ASCII and two-octet characters up to m characters (up to mr
+    # characters over SP/VT/FF, ASCII and two-octet characters only); every budget from the widest
     # character up to w
-    return _send(message, budget, False, B['m'])
+    return _send(message, budget, False, max(B['m'], B['mr']))
 
 
 def send_wide(message: str, budget: int) -> bool:
     """
-    pre: len(message) <= B['m'] - 1 and all(4 <= _cls(c) <= 8 for c in message)
+    pre: len(message) <= B['mw'] and all(4 <= _cls(c) <= 8 for c in message)
     pre: 4 <= budget <= B['w'] + 2
     post: _
     """
     # msg(): characters of 1..4 octets and spaces, budgets that split between and inside words
-    return _send(message, budget, False, B['m'] - 1)
+    return _send(message, budget, False, B['mw'])
 
 
 def send_notice(message: str, budget: int) -> bool:
@@ -231,14 +236,14 @@ def send_notice(message: str, budget: int) -> bool:
 
 def send_default(message: str) -> bool:
     """
-    pre: len(message) <= 3 and all(1 <= _cls(c) <= 8 for c in message)
+    pre: len(message) <= 2 and all(1 <= _cls(c) <= 8 for c in message)
     post: _
     """
     # length=None: _safeMaximumLineLength; the whole line incl. the ":nick!user@host " prefix a server
     # prepends must stay within 512 octets, and short messages are only split at LF
     rec = []
     c = _client(rec, features=True)
-    message = _fixlen(message, 3)
+    message = _fixlen(message, 2)
     fmt = "PRIVMSG u :"
     c.msg("u", message)
     safe = c._safeMaximumLineLength(fmt)
@@ -319,17 +324,26 @@ def _len_shards(var, n, specials):
 
 
 def _send_shards(tier):
-    m = BOUNDS[tier]["m"]
-    out = [("len(message) < %d" % m,)]
-    for k in range(1, 7):
-        out.append(("len(message) == %d" % m, "_cls(message[0]) == %d" % k))
+    m, mr, w = BOUNDS[tier]["m"], BOUNDS[tier]["mr"], BOUNDS[tier]["w"]
+    out = [("len(message) <= %d" % (m - 1),)]
+    for k in range(1, w + 1):
+        if tier == "quick":
+            out.append(("len(message) == %d" % m, "budget == %d" % k))
+        else:
+            for c in range(1, 7):
+                out.append(("len(message) == %d" % m, "budget == %d" % k, "_cls(message[0]) == %d" % c))
+    for n in range(m + 1, mr + 1):
+        for k in range(1, w + 1):
+            out.append(("len(message) == %d" % n, "budget == %d" % k))
     return out
 
 
 def _wide_shards(tier):
-    m = BOUNDS[tier]["m"] - 1
-    return [("len(message) < %d" % m,)] + [("len(message) == %d" % m, "_cls(message[0]) == %d" % k)
-                                            for k in range(4, 9)]
+    m, w = BOUNDS[tier]["mw"], BOUNDS[tier]["w"]
+    if tier == "quick":
+        return [()]
+    return [("len(message) < %d" % m,)] + [("len(message) == %d" % m, "budget == %d" % k, "_cls(message[0]) == %d" % c)
+                                            for k in range(4, w + 3) for c in range(4, 9)]
 
 
 HARNESSES = [
@@ -345,11 +359,11 @@ HARNESSES = [
 ]
 
 VECTORS = {
-    "send": [("éééé", 3), ("ab c", 3), ("a\rb", 3), ("a\tb", 3), ("abcd", 3), ("\n\na", 3), ("a  b", 2), ("é a", 2),
-             ("", 3), (" ", 1), ("a\nb\n", 1), ("  a", 4), ("x\x0by", 2)],
-    "send_wide": [("\U0001f600a中", 4), ("中中中", 5), ("é \U0001f600", 6), ("a b", 4)],
+    "send": [("ééé", 3), ("a c", 3), ("a\rb", 3), ("a\tb", 3), ("abc", 2), ("\n\na", 3), ("a b", 2), ("é a", 2),
+             ("", 3), (" ", 1), ("a\nb", 1), ("  a", 3), ("x\x0by", 2)],
+    "send_wide": [("\U0001f600a", 4), ("中中", 5), ("é\U0001f600", 5), ("a ", 4)],
     "send_notice": [("a\r", 3), ("\n\n", 3), ("é\U0001f600", 4), (" ", 1)],
-    "send_default": [("hello",), ("a\nb",), ("\n",), ("é\n\nx",), ("",)],
+    "send_default": [("hi",), ("a\n",), ("\n",), ("é\n",), ("",), ("\na",)],
     "too_small": [("a", 13), ("", 0), ("ab", 5)],
     "low": [("",), ("\x10",), ("\x100",), ("a\r\n\x00",), ("\x10\x10n",), ("é\x10r",)],
     "ctcp": [("",), ("\\",), ("\x01",), ("\\a",), ("a\\\\\x01",), ("\\\x01a",)],
